@@ -574,7 +574,9 @@ pub mod inner {
             T: Clone,
         {
             if self.is_contiguous() {
-                self.data.fill(val);
+                // The backing slice may be longer than the area of `self`
+                let (w, h) = self.dims;
+                self.data[..w as usize * h as usize].fill(val);
             } else {
                 self.rows_mut()
                     .for_each(|row| row.fill(val.clone()));
